@@ -25,6 +25,8 @@ VARIANTS = [
     ('s_rect', {'area': 6, 'rectangles': [[1, 1, 2, 2]]}),
     ('s_rect1', {'area': 6, 'rectangles': [1.5, 1, 3, 2]}),
     ('s_rect_reg', {'area': {'_': 4, 'dsp': 2}, 'rectangles': [[1, 1, 2, 2], [2.5, 1, 1, 2, 'dsp']]}),
+    ('s_reg_first', {'area': {'_': 2, 'dsp': 4}, 'rectangles': [[1, 1, 2, 2, 'dsp'], [2.5, 1, 1, 2], [1, 2.5, 2, 1]]}),   # named region first
+    ('s_twins', {'area': 8, 'rectangles': [[1, 1, 2, 2], [3, 1, 2, 2]]}),          # two equal halves: either can be the trunk
     ('s_exp', {'area': 1e-05, 'center': [1e-05, 2.5e+20]}),
     ('s_ctr_rect', {'area': 6, 'center': [9, 9], 'rectangles': [[1, 1, 2, 2], [3, 1.5, 2, 3]]}),
     ('s_hardfalse', {'area': 3, 'hard': False}),
